@@ -10,6 +10,7 @@ import StsModel.Drv.Wire
 import StsModel.Drv.Path
 import StsModel.Drv.Auth
 import StsModel.Drv.Announce
+import StsModel.Drv.Release
 namespace Sts.Drv
 
 def main (args : List String) : IO UInt32 :=
@@ -28,6 +29,9 @@ def main (args : List String) : IO UInt32 :=
   | ["path"] => run pathStep ()
   | ["auth"] => run authStep Srv.init
   | ["announce"] => run announceStep ()
+  | ["release"] => run Rel.relStep {}
+  | ["recovery"] => run Rel.relStep {}
+  | ["release-orig"] => run Rel.relStep { fx := Sts.Release.Fixes.original }
   | _ => do
     IO.eprintln "usage: stsdrv <component>   (ranges, stage, logfmt, chunkbin, scan, conf, send, queue, queuep)"
     return 2
